@@ -8,8 +8,11 @@ import tomllib
 
 VERIF = os.path.dirname(os.path.dirname(os.path.abspath(__file__)))
 TABLES = os.path.join(VERIF, "tables")
-EVIDENCE = os.path.join(VERIF, "evidence")
-REPLAY = os.path.join(VERIF, "work", "replay")
+# evidence is only ever written for /repo itself; runs against scratch copies (selftest) go elsewhere
+EVIDENCE = os.path.join(VERIF, "evidence") if os.environ.get("CBV_REPO", "/repo") == "/repo" \
+    else os.path.join(VERIF, "work", "scratch-evidence")
+REPLAY = os.path.join(VERIF, "work", "replay") if os.environ.get("CBV_REPO", "/repo") == "/repo" \
+    else os.path.join(VERIF, "work", "scratch-replay")
 KNOWN = os.path.join(VERIF, "known_findings.json")
 
 _ARG = re.compile(r"<([^<>]*)>")
@@ -17,7 +20,7 @@ _ARG = re.compile(r"<([^<>]*)>")
 
 def _norm_args(m):
     parts = [p.strip() for p in m.group(1).split(",")]
-    if parts and all(re.fullmatch(r"\d+|[A-Z][A-Z0-9_]*|'[a-z_]+", p) for p in parts):
+    if parts and all(re.fullmatch(r"_|\d+|[A-Z][A-Z0-9_]*|'[a-z_]+", p) for p in parts):
         return "<_>"
     return "⟨" + m.group(1) + "⟩"
 
@@ -28,7 +31,8 @@ def norm_id(s):
     if s is None:
         return None
     prev = None
-    out = s
+    out = re.sub(r"#dup\d+", "", s)
+    out = re.sub(r"\{[^{}]*\}", "_", out)   # unexpanded const expressions of macro-generated impls
     while prev != out:
         prev = out
         out = _ARG.sub(_norm_args, out)
